@@ -100,8 +100,15 @@ def combine_simulation_results(
         result_list2 = simresults2[name]
         type_code = result_list1[0].type_code
         for unpack in combined_params.get_unpacked_params_list():
-            # Create an empty Result object.
-            result_object = Result(name, type_code)
+            # Create an empty Result object (a CHOICETYPE result needs to
+            # know the number of choices).
+            if type_code == Result.CHOICETYPE:
+                result_object = Result(
+                    name,
+                    type_code,
+                    choice_num=len(result_list1[0]._value))
+            else:
+                result_object = Result(name, type_code)
 
             # Dictionary with the current unpack variation
             fixed_parameters = unpack.parameters
